@@ -548,19 +548,22 @@ Qed.
 
 (* ---- characters ---------------------------------------------------------------- *)
 Lemma esc_roundtrip c chr e :
-  as_escaped_char c chr = Some e -> get_escaped_char e chr = c /\ c <> 0.
+  as_escaped_char c chr = Some e -> get_escaped_char e chr = c /\ (c <> 0 \/ e = 48).
 Proof.
   unfold as_escaped_char.
+  destruct (c =? 0) eqn:E0.
+  { apply Z.eqb_eq in E0. subst. destruct chr; intros H; inversion H; subst. cbn. split; [reflexivity|now right]. }
+  apply Z.eqb_neq in E0.
   repeat match goal with
          | |- context [if ?a =? ?b then _ else _] =>
              destruct (a =? b) eqn:Hq;
-             [apply Z.eqb_eq in Hq; subst; intros H; inversion H; subst; destruct chr; cbn; (split; [reflexivity|lia])|clear Hq]
+             [apply Z.eqb_eq in Hq; subst; intros H; inversion H; subst; destruct chr; cbn; (split; [reflexivity|left; lia])|clear Hq]
          end.
   destruct chr; cbn [andb negb].
   - destruct (c =? 39) eqn:Eq; intros H; [|discriminate]. apply Z.eqb_eq in Eq; subst. inversion H; subst.
-    cbn. split; [reflexivity|lia].
+    cbn. split; [reflexivity|left; lia].
   - destruct (c =? 34) eqn:Eq; intros H; [|discriminate]. apply Z.eqb_eq in Eq; subst. inversion H; subst.
-    cbn. split; [reflexivity|lia].
+    cbn. split; [reflexivity|left; lia].
 Qed.
 
 Lemma esc_none_chr c : as_escaped_char c true = None -> c <> 92 /\ c <> 39.
@@ -573,7 +576,7 @@ Proof.
   cbn [andb negb]. destruct (c =? 39) eqn:E39; intros H; [discriminate|]. lia.
 Qed.
 
-Definition good_char (c : Z) : Prop := 1 <= c <= 255.
+Definition good_char (c : Z) : Prop := 0 <= c <= 255.
 
 Lemma tok_char c : good_char c -> tok_core (VC c) (print_char c).
 Proof.
@@ -582,8 +585,10 @@ Proof.
     assert (He : (e =? 39) && isspace 39 = false) by now rewrite andb_false_r.
     split; intros.
     + unfold skip_core. cbn [app first_class Z.eqb Pos.eqb orb length Nat.ltb Nat.leb at_ nth].
-      rewrite He, Hg. replace (c =? 0) with false by lia. cbn [orb negb skipn av_type andb].
-      reflexivity.
+      rewrite He, Hg.
+      replace (negb (e =? 48) && (c =? 0)) with false
+        by (destruct Hnz as [Hnz| ->]; [replace (c =? 0) with false by lia; now rewrite andb_false_r|reflexivity]).
+      cbn [orb negb skipn av_type andb]. reflexivity.
     + unfold scan_core. cbn [app first_class Z.eqb Pos.eqb orb at_ nth isspace in_range Z.leb Z.compare Pos.compare Pos.compare_cont andb negb skipn].
       rewrite Hg. reflexivity.
   - destruct (esc_none_chr _ E) as [H92 H39]. split; intros.
@@ -597,6 +602,7 @@ Qed.
 Lemma esc_none_str c : as_escaped_char c false = None -> c <> 92 /\ c <> 34.
 Proof.
   unfold as_escaped_char.
+  destruct (c =? 0) eqn:E0; [apply Z.eqb_eq in E0; intros _; lia|].
   repeat match goal with
          | |- context [if ?a =? ?b then _ else _] =>
              destruct (a =? b) eqn:?Hq; [intros Hd; discriminate Hd|]
